@@ -82,6 +82,8 @@ TInvalidRV(id)  == [T0 EXCEPT !.k = "invalidrv", !.id = id]                  \* 
 TSStr(id, b)    == [T0 EXCEPT !.k = "sstr", !.id = id, !.b = b]              \* interfaces.SafeString: string kind + SafeValue
 TComplex(id)    == [T0 EXCEPT !.k = "complex", !.id = id]
 TTSlice(id, xs) == [T0 EXCEPT !.k = "tslice", !.id = id, !.xs = xs]
+TChan(id)       == [T0 EXCEPT !.k = "chan", !.id = id]       \* make(chan int): printed as a pointer
+TFunc(id)       == [T0 EXCEPT !.k = "func", !.id = id]       \* func() {}: printed as a pointer
 TTArray(id, xs) == [T0 EXCEPT !.k = "tarray", !.id = id, !.xs = xs]           \* [N]T: printed like []T (never nil; no %p)
 TTMap(id, kvs)  == [T0 EXCEPT !.k = "tmap", !.id = id, !.xs = kvs]
 \* an object: named int type (value n) with the methods in caps
@@ -190,7 +192,7 @@ IsGoStringer(t)    == HasCap(t, "GS")
 IsStringer(t)      == HasCap(t, "ST") \/ t.k = "builder"
 IsNilRecv(t)       == HasCap(t, "NILP")        \* a typed nil pointer whose methods dereference it
 IsStringKind(t)    == t.k \in {"string", "rstring", "sstr"}
-IsPtrKind(t)       == t.k \in {"ptrto", "nilptr", "map", "slice", "tslice", "tmap"} \/ IsNilRecv(t)
+IsPtrKind(t)       == t.k \in {"ptrto", "nilptr", "map", "slice", "tslice", "tmap", "chan", "func"} \/ IsNilRecv(t)
 
 ---------------------------------------------------------------------------
 RECURSIVE PrintArg(_, _, _), PrintArg2(_, _, _), PrintValue(_, _, _, _, _), PrintElem(_, _, _, _, _), PrintChecked(_, _, _, _, _),
@@ -521,6 +523,7 @@ PrintKind(ps0, v, verb, depth, ro) ==
     [] v.k = "ptrto"  -> IF depth = 0 /\ v.xs[1].k \in {"slice", "struct", "map", "tslice", "tmap", "tarray"} THEN PrintValue(W(ps, <<38>>), v.xs[1], verb, depth + 1, ro)
                          ELSE FmtPointer(ps, v, verb)
     [] v.k = "nilptr" -> FmtPointer(ps, v, verb)
+    [] v.k \in {"chan", "func"} -> FmtPointer(ps, v, verb)          \* case reflect.Chan, reflect.Func, reflect.UnsafePointer
     [] OTHER          -> ps
 
 PrintSeq(ps, xs, verb, depth, ro, sep, i) ==
